@@ -788,6 +788,7 @@ func init() {
 					}
 				}
 			}, func() struct{} { return struct{}{} }, c20LateCheck)
+		c20RegPart(c)
 		explore.Product(c.R, "routing-through-the-real-constructor", explore.PartOpt{Workers: 4, Bound: "3 frames of the real runFrame per case", Domain: "gameboy.New with speakers attached; channel 1 routed left only, right only, both, neither x NR50 {77, 71, 17}"},
 			func(yield func(c20Wired) bool) {
 				for _, nr51 := range []uint8{0x10, 0x01, 0x11, 0x00, 0xee} {
